@@ -737,13 +737,13 @@ class _ActionSubCommands(_SubParsersAction):
         if subcommand:
             subcommand_keys = [subcommand]
 
+        if subcommand is not None and subcommand not in action._name_parser_map:  # type: ignore[attr-defined]
+            raise NSKeyError(
+                f'expected "{dest}" to be one of {{{",".join(action._name_parser_map)}}}, but got: {subcommand!r}.'
+            )
         if fail_no_subcommand:
             if subcommand is None and not (fail_no_subcommand and action._required):  # type: ignore[attr-defined]
                 return None, None
-            if subcommand is not None and subcommand not in action._name_parser_map:  # type: ignore[attr-defined]
-                raise NSKeyError(
-                    f'expected "{dest}" to be one of {{{",".join(action._name_parser_map)}}}, but got: {subcommand!r}.'
-                )
             if action._required and subcommand not in action._name_parser_map:  # type: ignore[attr-defined]
                 # If subcommand is required and no subcommand is provided,
                 # present the user with a friendly error message to remind them of
